@@ -584,7 +584,7 @@ def body(ctx):
 
 
 def run(ctx):
-    hyp_run(ctx, 'c07.machine', case_strategy(False), body(ctx), ctx.pick(400, 6000))
+    hyp_run(ctx, 'c07.machine', case_strategy(False), body(ctx), ctx.pick(400, 30000))
 
 
 def replay(ctx, check, case):
